@@ -31,4 +31,43 @@ example : durationCast ⟨i32, ⟨1, 1000⟩⟩ ⟨i64, ⟨1001, 30000⟩⟩ (-7
     (-7) (by decide) (by decide)
   rw [h] <;> decide +kernel
 
+/-! ## the common type and the operators that go through it -/
+
+/-- Conversion to the common type is exact: the converting constructor takes part in overload resolution (its conversion
+    factor has denominator 1: never the `.pre` error), does not overflow, and the converted count denotes the same number
+    of seconds. -/
+theorem common_exact (a b : DurTy) (h : PairTyOk a b) (x y : Int) (hin : PairIn a b x y) :
+    ∃ k l r, pairCtx a b = .ok k ∧ k.cd = cdTy a b ∧ convertCore k.ka x = .ok l ∧ convertCore k.kb y = .ok r ∧
+      (l : ℚ) * (cdTy a b).per.toRat = Spec.val a.per.toRat x ∧
+      (r : ℚ) * (cdTy a b).per.toRat = Spec.val b.per.toRat y := by
+  obtain ⟨c1, c2⟩ := both_common a b h x y hin
+  obtain ⟨ha, hb, hpa, hpb, hc⟩ := h
+  obtain ⟨e1, e2, _⟩ := mul_rat a.per b.per hpa hpb hc.1
+  refine ⟨pairK a b, _, _, pairCtx_eq a b ha hb hpa hpb hc, rfl, c1, c2, ?_, ?_⟩
+  · unfold Spec.val; push_cast; rw [mul_assoc]; erw [e1]
+  · unfold Spec.val; push_cast; rw [mul_assoc]; erw [e2]
+
+/-- `operator<` compares the exact values. -/
+theorem lt_eq (a b : DurTy) (h : PairTyOk a b) (x y : Int) (hin : PairIn a b x y) :
+    lt a b x y = .ok (Spec.lt a.per.toRat b.per.toRat x y) := by
+  obtain ⟨c1, c2⟩ := both_common a b h x y hin
+  obtain ⟨ha, hb, hpa, hpb, hc⟩ := h
+  obtain ⟨e1, e2, hpos, _⟩ := mul_rat a.per b.per hpa hpb hc.1
+  unfold lt
+  rw [pairCtx_eq a b ha hb hpa hpb hc]
+  simp only [bind, Except.bind, ltCore, c1, c2]
+  unfold Spec.lt Spec.val
+  congr 1
+  rw [decide_eq_decide, ← e1, ← e2]
+  constructor
+  · intro hlt
+    have : ((x * mulL a.per b.per : Int) : ℚ) < ((y * mulR a.per b.per : Int) : ℚ) := by exact_mod_cast hlt
+    push_cast at this
+    nlinarith [mul_lt_mul_of_pos_right this hpos]
+  · intro hlt
+    have : ((x : ℚ) * mulL a.per b.per) * (cdPer a.per b.per).toRat < ((y : ℚ) * mulR a.per b.per) * (cdPer a.per b.per).toRat := by
+      nlinarith
+    have := lt_of_mul_lt_mul_right this (le_of_lt hpos)
+    exact_mod_cast this
+
 end Tetl.C12.Props
